@@ -175,4 +175,8 @@ class CachedAmpPreProcessor(BasePreProcessor):
         super().__init__(*args, **kwargs)
 
     def __call__(self, x):
-        return {"p4": x["p4"]}
+        p4 = x["p4"]
+        if self.kwargs.get("cp_trans", False):
+            charges = x.get("extra", {}).get("charge_conjugation", None)
+            p4 = {k: parity_trans(v, charges) for k, v in p4.items()}
+        return {"p4": p4}
